@@ -9,6 +9,7 @@ import (
 	"io"
 	"os"
 	"strconv"
+	"strings"
 
 	"github.com/codenotary/immudb/embedded/logger"
 	"github.com/codenotary/immudb/embedded/store"
@@ -78,6 +79,13 @@ func presP(ps []Pre) []*schema.Precondition {
 }
 
 func classify(err error) Result {
+	// While CompactIndex swaps the index in, taking a snapshot can fail with tbtree's "ts is greater
+	// than current ts", which wraps the same sentinel as a genuine argument error (SinceTx beyond the
+	// committed frontier). It is a transient refusal without any observation of the state: recorded as
+	// an abort (bucket call:*:abort), the message being the only way to tell the two apart.
+	if errors.Is(err, store.ErrIllegalArguments) && strings.Contains(err.Error(), "greater than current ts") {
+		return Result{Kind: "abort", ErrText: err.Error()}
+	}
 	switch {
 	case errors.Is(err, store.ErrPreconditionFailed):
 		return errRes(EPrecond)
